@@ -340,6 +340,7 @@ func SpecMatch(pattern string, hasWild bool, s string) bool {
 // step with their version; defect F12)
 //@   ensures[C01] result ==> r.Collection == rs.collection && r.Collection != nil
 //@   assumes predLoadedOK(rs)
+//@   ensures predLoadedOK(rs)
 //@   ensures[C01,C02,C15] result ==> old(rs.state) == stateCollection && 0 <= r.Idx && r.Idx <= old(len(rs.collection.Values)) &&
 //@       len(rs.collection.Values) == old(len(rs.collection.Values)) + 1 && rs.version == old(rs.version) + 1 && r.Update &&
 //@       rs.collection.Values[r.Idx] == r.Value && r.Value.Type >= codec.ValueTypePrimitive
@@ -356,6 +357,7 @@ func SpecMatch(pattern string, hasWild bool, s string) bool {
 //@   assigns rs.collection, rs.version, r.Idx, r.Value, r.Update, r.Collection, alloc()
 //@   ensures[C01] result ==> r.Collection == rs.collection && r.Collection != nil
 //@   assumes predLoadedOK(rs)
+//@   ensures predLoadedOK(rs)
 //@   ensures[C01,C02,C15] result ==> old(rs.state) == stateCollection && 0 <= r.Idx && r.Idx < old(len(rs.collection.Values)) &&
 //@       len(rs.collection.Values) == old(len(rs.collection.Values)) - 1 && rs.version == old(rs.version) + 1 && r.Update &&
 //@       (forall i int :: i == r.Idx ==> r.Value == old(rs.collection.Values[i]))
@@ -374,6 +376,7 @@ func SpecMatch(pattern string, hasWild bool, s string) bool {
 //@ func (*ResourceSubscription).handleEventChange
 //@   requires rs != nil && r != nil && rs.e != nil && rs.e.cache != nil
 //@   assumes predLoadedOK(rs) && (rs.state == stateModel ==> rs.model.Values != nil)
+//@   ensures predLoadedOK(rs) && (rs.state == stateModel ==> rs.model.Values != nil)
 //@   ensures[C01,C02,C15] !result ==> rs.version == old(rs.version) && rs.model == old(rs.model) && rs.collection == old(rs.collection) && rs.state == old(rs.state) &&
 //@       r.Update == old(r.Update)
 //@   ensures[C01,C02] result ==> old(rs.state) == stateModel && rs.version == old(rs.version) + 1 && r.Update && fresh(rs.model) &&
@@ -401,6 +404,7 @@ func SpecMatch(pattern string, hasWild bool, s string) bool {
 //@   assumes (rs.e.links == nil || rs.e.links != rs.e.queries) && (forall sb Subscriber :: has(rs.subs, sb) ==> sb != nil)
 //@   ensures[C09,C12] rs.subs == nil && rs.e.count == old(rs.e.count) - old(card(rs.subs)) && (rs.query == "" ==> rs.e.base == nil) && (rs.query != "" ==> !has(rs.e.queries, rs.query))
 //@   ensures[C01,C12] callcount("Event") == old(callcount("Event")) + old(card(rs.subs))
+//@   ensures rs.state == old(rs.state) && rs.model == old(rs.model) && rs.collection == old(rs.collection)
 //@   assert[C01] sub.Event#1: arg0 == r
 //@   safety[C15]
 //@   loop 1 invariant callcount("Event") == old(callcount("Event")) + iters1 && rs.subs == nil && rs.e.count == old(rs.e.count) - old(card(rs.subs)) && card(subs) == old(card(rs.subs))
@@ -413,6 +417,7 @@ func SpecMatch(pattern string, hasWild bool, s string) bool {
 //@ func (*ResourceSubscription).handleEvent
 //@   requires rs != nil && r != nil && rs.e != nil && rs.e.cache != nil
 //@   assumes (rs.state > stateRequested ==> predLoadedOK(rs)) && (forall sb Subscriber :: has(rs.subs, sb) ==> sb != nil)
+//@   ensures rs.state > stateRequested ==> predLoadedOK(rs)
 //@   ensures[C01,C15] old(rs.state) <= stateRequested && r.Event != "reaccess" ==> callcount("Event") == old(callcount("Event")) &&
 //@       rs.version == old(rs.version) && rs.model == old(rs.model) && rs.collection == old(rs.collection) && rs.state == old(rs.state)
 //@   ensures[C12,C15] old(rs.state) > stateRequested && old(rs.resetting) && (r.Event == "change" || r.Event == "add" || r.Event == "remove" || r.Event == "delete") ==>
@@ -452,6 +457,9 @@ func SpecMatch(pattern string, hasWild bool, s string) bool {
 //@   requires rs != nil && rs.e != nil
 //@   assumes predEventSubOK(rs.e) && rs.subs != nil && rs.state == stateRequested
 //@   ensures[C09,C15] nrs != nil
+// (inductive: every loaded resource has its content - assumed for all entries, proved for all at every exit)
+//@   assumes forall x *ResourceSubscription :: x.state <= stateModel && (x.state > stateRequested ==> predLoadedOK(x))
+//@   ensures forall x *ResourceSubscription :: x.state <= stateModel && (x.state > stateRequested ==> predLoadedOK(x))
 //@   ensures[C01,C03,C13] forall x *ResourceSubscription :: x == nrs && !fresh(x) && old(x.state) > stateRequested ==>
 //@       x.version == old(x.version) && x.model == old(x.model) && x.collection == old(x.collection) && x.state == old(x.state)
 //@   ensures[C01] forall x *ResourceSubscription :: x == nrs && !fresh(x) && old(x.state) <= stateRequested && x.state > stateRequested ==> x.version == 0
